@@ -164,3 +164,25 @@ pub fn build_chain_t(mut o: ObsT, chain: &[(Op, P)]) -> ObsT {
   }
   o
 }
+
+/// payload of the harness's own unwinding (raised with resume_unwind: no panic hook, no message)
+pub struct DeliberateUnwind;
+
+/// End a subscription: 0 = `unsubscribe()`, 1 = its `SubscriptionGuard` goes out of scope, 2 = the guard is
+/// dropped by a panic unwinding through the scope that owns it (the program catches the panic and goes on).
+pub fn release<U: Subscription>(u: U, how: u32) {
+  match how {
+    0 => u.unsubscribe(),
+    1 => drop(u.unsubscribe_when_dropped()),
+    _ => {
+      let g = u.unsubscribe_when_dropped();
+      let _ = std::panic::catch_unwind(std::panic::AssertUnwindSafe(move || {
+        let _g = g;
+        std::panic::resume_unwind(Box::new(DeliberateUnwind));
+      }));
+    }
+  }
+}
+pub fn how_name(how: u32) -> &'static str {
+  ["unsubscribe()", "guard drop", "guard dropped by an unwinding panic"][how as usize]
+}
